@@ -13,6 +13,8 @@
   * `get_fru_multirecord_area`: record headers are read one by one (5 bytes each) following the
     length bytes until the end-of-list flag, then the whole area is read and parsed
   * the resulting `FruInventory` carries no `common_header`
+  * as shipped nothing compares the areas' extents (`devOverlapLax`); repaired:
+    `_check_area_layout(header, fru)` before `return fru`
   Core only.
 -/
 import PyIpmi.Model.FruParse
@@ -62,6 +64,7 @@ def parseFruDevice (v : Variant) (store : List Nat) : Outcome FruView :=
   (devArea v .board store h.boardOff).bind fun b =>
   (devArea v .product store h.productOff).bind fun p =>
   (devMulti v store h.multiOff).bind fun m =>
-  .ok ⟨none, c, b, p, m⟩
+  if !v.devOverlapLax && layoutClash h c b p m then .decodingError
+  else .ok ⟨none, c, b, p, m⟩
 
 end PyIpmi.Fru
